@@ -302,7 +302,9 @@ def run(ctx):
                 "commands (notes only); plus random histories up to length 12; distinct = distinct input lines (all are non-trivial: every line "
                 "contains at least one command or step)" % (len(UNKNOWN), len(CONFIGS)),
         "samples": [lines[0][:300], lines[len(lines) // 2][:300], lines[-1][:300]],
-        "exhaustive": {"flag_states_x_commands_x_configurations": True, "history_length_bound_random": 12},
+        "exhaustive": True,
+        "exhaustive_scope": "reachable flag states x commands x on/off x configurations (complete); random histories up to length 12 are sampled on top",
+        "states": len(stats.get("states", ())), "transitions": stats.get("cmds", 0),
         "style_histogram": hist,
         "traces_validated_against_impl": len(cases),
         "commands_checked": stats.get("cmds", 0), "step_ops_checked": stats.get("step_ops", 0),
